@@ -104,7 +104,17 @@ impl FramedWriteS {
 /// the local idle time-out timer (transport::IdleTimeout): how often it has been restarted, and whether polling it now reports that it ran out
 pub struct IdleTimeoutS { pub resets: Ghost<nat>, pub elapsed: Ghost<bool> }
 pub struct Elapsed {}
+/// std::time::Duration, reduced to whether it is zero
+pub struct Duration { pub zero: bool }
+impl Duration { pub fn is_zero(&self) -> (r: bool) ensures r == self.zero { self.zero } }
+pub type IdleTimeout = IdleTimeoutS;
 impl IdleTimeoutS {
+    /// IdleTimeout::new(duration): armed from now with that duration (unit TIMERS)
+    #[verifier::external_body]
+    pub fn new(duration: Duration) -> (r: IdleTimeoutS)
+        requires !duration.zero,      // [C17.idle-time-out.zero-does-not-arm-the-timer] an idle time-out of 0 means "none" (AMQP 1.0 part 2, 2.7.1 idle-time-out; the builder's default): it must never arm the timer -- a timer armed with a zero duration reports the peer as silent at the first poll that finds no frame ready
+        ensures r.resets@ == 0,
+    { unimplemented!() }
     #[verifier::external_body]
     pub fn reset(&mut self) ensures final(self).resets@ == old(self).resets@ + 1, final(self).elapsed@ == false { unimplemented!() }
     #[verifier::external_body]
@@ -271,5 +281,27 @@ impl Transport {
     ensures r.max == max_frame_size,                                   // [C15.transport.decoder-limit]
 //@@ end
 
+
+impl Transport {
+//@@ fn file=fe2o3-amqp/src/transport/mod.rs impl=`~impl<Io,Ftype>Transport<Io,Ftype>whereIo:AsyncRead+AsyncWrite+Unpin` name=bind_to_framed_codec
+//@@ blockarms
+//@@ param framed_write : FramedWriteS
+//@@ param framed_read : FramedReadS
+//@@ ret Transport
+//@@ subst `ftype: PhantomData,` => `` rule=R7
+//@@ spec
+    ensures r.framed_write == framed_write, r.framed_read == framed_read,
+        (r.idle_timeout is Some) == (idle_timeout is Some && !idle_timeout->Some_0.zero),       // [C17.idle-time-out.armed-iff-configured] the local idle timer exists exactly when a non-zero idle time-out was configured
+//@@ end
+
+//@@ fn file=fe2o3-amqp/src/transport/mod.rs impl=`~impl<Io>Transport<Io,amqp::Frame>whereIo:AsyncRead+AsyncWrite+Unpin` name=set_idle_timeout
+//@@ blockarms
+//@@ ret ()
+//@@ subst `; self }` => `; }` rule=R7
+//@@ spec
+    ensures final(self).framed_write == old(self).framed_write, final(self).framed_read == old(self).framed_read,
+        (final(self).idle_timeout is Some) == !duration.zero,       // [C17.idle-time-out.armed-iff-configured]
+//@@ end
+}
 } // verus!
 fn main() {}
